@@ -2,6 +2,7 @@
    harness/inproc/h_arith.c and h_arith_h2.c -/
 import LtVerif.Model.Arith
 import LtVerif.Model.ArithRange
+import LtVerif.Model.ArithTmpBuf
 namespace Driver
 open LtVerif LtVerif.B LtVerif.Arith
 
@@ -55,6 +56,40 @@ private def bufOps (ops : List String) : String :=
       | .ok b' => (some b', acc.2 ++ [toString b'.used ++ "/" ++ toString b'.size])
   let (_, outs) := ops.foldl step (some { used := 0, size := 0 }, [])
   String.intercalate " " outs
+
+private def tbParse (t : String) : Option TbOp :=
+  let k := t.toList.headD ' '
+  if t = "I" then some .h2init
+  else if t = "X" then some .h2retire
+  else if t = "Q" then some .h2hdr
+  else if k = 'E' || k = 'O' then
+    match (t.drop 1).toString.splitOn ":" with
+    | [a, b] =>
+      match a.toNat?, b.toNat? with
+      | some n, some p =>
+        if n > 65535 || p > 255 then none
+        else some (if k = 'E' then .fcgiErr n p else .fcgiOut n p)
+      | _, _ => none
+    | _ => none
+  else none
+
+/-- `Q` without an open connection is not a case -/
+private def tbWellFormed : Bool → List TbOp → Bool
+  | _, [] => true
+  | _, .h2init :: r => tbWellFormed true r
+  | _, .h2retire :: r => tbWellFormed false r
+  | o, .h2hdr :: r => o && tbWellFormed o r
+  | o, _ :: r => tbWellFormed o r
+
+private def tmpbOut (toks : List String) : String :=
+  match toks.mapM tbParse with
+  | none => "bad-op"
+  | some ops =>
+    if !tbWellFormed false ops then "bad-op" else
+    match tbRun ⟨⟨0, 0⟩, false⟩ ops with
+    | none => "abort"
+    | some (sf, tr) =>
+      "tb=" ++ String.intercalate "," (tr.map toString) ++ " used=" ++ toString sf.b.used
 
 private def rngOut (len : Int) (s : Bytes) : String :=
   match Rg.parse (s.takeWhile (· ≠ 0)) len with
@@ -162,6 +197,7 @@ def arithLine : List String → String
     | some l, some s => if l = 0 then "bad-op" else rngOut (l : Int) s
     | _, _ => "bad-op"
   | "buf" :: ops => if ops.isEmpty then "bad-op" else bufOps ops
+  | "tmpb" :: ops => if ops.isEmpty then "bad-op" else tmpbOut ops
   | ["ckr", n, x, e] =>
     match n.toNat?, x.toNat?, e.toNat? with
     | some n, some x, some e =>
